@@ -63,6 +63,9 @@ SHAPES = [
     ('array_in_for_init_scope', "for (int j = x - x; j < 2; j += 1) { ARR if (i % 3 == 1 and j == 1) { EXIT } }"),
     # the exit is the unconditional LAST statement of the loop body itself
     ('exit_last_unconditional', "ARR write('.'); if (i > 50) { return; } EXIT"),
+    # the try body allocates nothing itself; the defeat function it calls does, and is defeated while its arrays are live
+    ('try_without_arrays', "ARR try { if (i % 3 == 1) { EXIT } write(','); } stop { write('t'); } write('.');"),
+    ('try_without_arrays_array_after', "try { if (i % 3 == 1) { EXIT } write(','); } stop { write('t'); } ARR write('.');"),
     ('guard_break_before_array', "if (i == 5) { write('G'); break; } ARR if (i % 3 == 1) { EXIT } write('.');"),
 ]
 
@@ -71,7 +74,10 @@ def programs():
     for (an, arr), (en, ex, where), (ln, loop), (sn, shape), tryk in itertools.product(
             ARRAYS, EXITS, LOOPS, SHAPES, ('none', 'stop_inside', 'stop_around', 'undo_inside')):
         in_try = tryk != 'none'
-        if where in ('try', 'tryloop') and tryk not in ('stop_inside', 'stop_around'):
+        if sn.startswith('try_without_arrays'):
+            if where != 'try' or tryk != 'none':
+                continue          # the shape brings its own try/stop: defeat exits only, no outer try
+        elif where in ('try', 'tryloop') and tryk not in ('stop_inside', 'stop_around'):
             continue
         if where == 'tryloop' and tryk != 'stop_inside':
             continue
